@@ -61,6 +61,9 @@ type regCall struct {
 	subIDs []string // channel the sub-state belongs to ("?" if nil)
 	at     int
 	failed bool // refused by the adjudicator (scenario.regFail)
+	// parameters that do not belong to the state they come with (an adjudicator derives the
+	// channel id and the signers from the parameters): "" or a description
+	badParams string
 }
 type pubRec struct {
 	ch        string
@@ -101,6 +104,9 @@ func (w *world) Register(_ context.Context, req channel.AdjudicatorReq, subs []c
 	for _, l := range req.Tx.Locked {
 		r.locked = append(r.locked, w.names[l.ID])
 	}
+	if req.Params == nil || req.Tx.State == nil || req.Params.ID() != req.Tx.ID {
+		r.badParams = "request"
+	}
 	for _, s := range subs {
 		if s.State == nil {
 			r.subs = append(r.subs, -1)
@@ -108,6 +114,9 @@ func (w *world) Register(_ context.Context, req channel.AdjudicatorReq, subs []c
 		} else {
 			r.subs = append(r.subs, int64(s.State.Version))
 			r.subIDs = append(r.subIDs, w.names[s.State.ID])
+			if (s.Params == nil || s.Params.ID() != s.State.ID) && r.badParams == "" {
+				r.badParams = "sub-state of " + w.names[s.State.ID]
+			}
 		}
 	}
 	if w.regFail > 0 && len(w.regs)+1 == w.regFail {
@@ -160,6 +169,9 @@ type scenario struct {
 	// watched until a start step (the client calls Watch on a sub-channel only once its opening
 	// has returned)
 	late bool
+	// finalSub: every sub-channel state from version 1 on is final (a finalised sub-channel whose
+	// settlement in the parent has not happened: the parent's transactions still lock it)
+	finalSub bool
 }
 
 // step of a sequential history: Kind in {pub, stop, reg, prog, conc}
@@ -216,7 +228,7 @@ func exec(t *testing.T, ssc schedrun.Scenario, o vsched.Options) (*vsched.Sched,
 			if ch == "P" {
 				return channel.Transaction{State: &channel.State{ID: pp.ID(), Version: v, App: channel.NoApp(), Data: channel.NoData(), Allocation: mkAlloc(4, 4, true)}, Sigs: make([]wallet.Sig, 2)}
 			}
-			return channel.Transaction{State: &channel.State{ID: subParams[ch].ID(), Version: v, App: channel.NoApp(), Data: channel.NoData(), Allocation: mkAlloc(1, 1, false)}, Sigs: make([]wallet.Sig, 2)}
+			return channel.Transaction{State: &channel.State{ID: subParams[ch].ID(), Version: v, App: channel.NoApp(), Data: channel.NoData(), Allocation: mkAlloc(1, 1, false), IsFinal: sc.finalSub && v >= 1}, Sigs: make([]wallet.Sig, 2)}
 		}
 		params := func(ch string) *channel.Params {
 			if ch == "P" {
@@ -450,6 +462,9 @@ func (w *world) check(sc scenario) []verdict {
 		if trig == nil {
 			add("register-without-event", "Register(parent v%d) without a preceding registered event", r.parent)
 			continue
+		}
+		if r.badParams != "" {
+			add("register-params-mismatch", "Register: the parameters of the %s are not those of the channel the state belongs to", r.badParams)
 		}
 		if r.parent < lower("P", trig.at) || r.parent > upper("P", r.at) {
 			add("register-stale-parent", "Register with parent v%d outside [%d,%d]", r.parent, lower("P", trig.at), upper("P", r.at))
@@ -805,6 +820,24 @@ func scenarios(res *report.Result) []schedrun.Scenario {
 		}
 		sc.regFail = 1
 		n := fmt.Sprintf("script/p0=%d/%s/fail1", sc.p0, strings.Join(ks, ","))
+		table[n] = sc
+		out = append(out, schedrun.Scenario{Name: n, Mode: explore.Delay, Bound: 0, MaxSteps: 40000, Weight: 1})
+	}
+	// a finalised sub-channel (final from version 1 on) that the parent still locks: the histories
+	// up to length 3 (thorough: 4) in which the sub-channel publishes and is stopped
+	for _, sc := range scripts(failLen) {
+		var ks []string
+		pubS, stopS := false, false
+		for _, st := range sc.script {
+			ks = append(ks, st.String())
+			pubS = pubS || st.Kind == "pub" && st.Ch == "S"
+			stopS = stopS || st.Kind == "stop"
+		}
+		if !pubS || !stopS {
+			continue
+		}
+		sc.finalSub = true
+		n := fmt.Sprintf("script/p0=%d/%s/finalsub", sc.p0, strings.Join(ks, ","))
 		table[n] = sc
 		out = append(out, schedrun.Scenario{Name: n, Mode: explore.Delay, Bound: 0, MaxSteps: 40000, Weight: 1})
 	}
